@@ -40,6 +40,7 @@ func runC01(c *Ctx) {
 	lexerByteIndex(c, "R6")
 	cliExitDiscipline(c, "R8")
 	noNilCellStored(c, "R17")
+	uncheckedTypeAssertions(c, "R18")
 	if es := c.P.LangFunc("(*Evaluator).evalStatement"); es != nil {
 		c.shared("R10", "C07/R7", "for-in over an array iterates with Go's range over the array value taken at loop entry (bounds-safe by construction): an index loop with a hoisted length panics when the body shrinks the array", keyHas("for-in ValueArray"), func(s *Ctx) { c07ForIn(s, es) })
 	}
@@ -47,6 +48,7 @@ func runC01(c *Ctx) {
 		cycleGuard(s, "R3", "(*Value).toGoValueInterval")
 		cycleGuard(s, "R3", "(*Value).prettyStringInteral")
 	})
+	c.shared("R19", "C02/R2", "the command line never dereferences a nil evaluator: every success return of EvalProgram hands out the evaluator it built (a `nothing to run` shortcut that returns nil, nil is a nil-pointer crash in the -o path)", keyHas("success-return"), c02R2)
 	c.shared("R16", "C20/R13", "never a Go runtime crash: the Go stack a run uses is bounded — between two frame pushes (each with its depth test) the evaluator does not recurse to a depth that grows with the program text", keyHas("recursion-between-frames"), func(s *Ctx) { recursionBetweenFrames(s, "R13") })
 	c.shared("R15", "C10/R6", "no evaluator is used half-built: all interpreter state is the documented set, created by the one constructor — a map field added for a cache and made in only one of the two entry points is a nil-map panic in the other", keyHas("evaluator-state", "syntax-tree-store", "interpreter-state"), func(s *Ctx) { interpreterState(s, "R6") })
 	c.shared("R13", "C12/R8", "building an error message never crashes: the line / column computation is the recognised scan over byte offsets, which slices the source text only between a recorded line start and the scan index (no computed bound that an empty text or an end position could push out of range)", keyHas("scan-index", "line-", "column", "source-line"), c12LineColArithmetic)
@@ -269,4 +271,47 @@ func noNilCellStored(c *Ctx, rule string) {
 		})
 	}
 	c.floor(rule, 15)
+}
+
+// uncheckedTypeAssertions (R18): `x.(T)` without the comma-ok form panics when x holds another
+// type. Every type assertion in lang, cli and main is the comma-ok form (a type switch is), or
+// asserts the very type a dominating comma-ok assertion of the same value has established.
+func uncheckedTypeAssertions(c *Ctx, rule string) {
+	p := c.P
+	c.note("%s unchecked-type-assertion: every type assertion in the module is the comma-ok form (type switches compile to it) or repeats, on the same value, a comma-ok assertion whose success holds where it stands; a bare `x.(T)` on parser or program data is a Go panic for the inputs that carry another type.", rule)
+	nOK := 0
+	for _, fn := range p.Funcs {
+		if !p.InModule(fn) || p.inTestFile(fn) {
+			continue
+		}
+		n := 0
+		allInstrs(fn, func(in ssa.Instruction) {
+			ta, ok := in.(*ssa.TypeAssert)
+			if !ok {
+				return
+			}
+			if ta.CommaOk {
+				nOK++
+				return
+			}
+			n++
+			// established: the facts at this block include the success of a comma-ok assertion of the same
+			// value to the same type
+			established := false
+			for f := range FactsOf(fn).At(ta.Block()) {
+				if ex, isEx := f.cond.(*ssa.Extract); isEx && ex.Index == 1 && f.truth {
+					if prev, isTA := ex.Tuple.(*ssa.TypeAssert); isTA && prev.X == ta.X && types.Identical(prev.AssertedType, ta.AssertedType) {
+						established = true
+					}
+				}
+			}
+			c.check(established, rule, fmt.Sprintf("unchecked-type-assertion %s #%d", shortName(fn), n), p.InstrPos(ta), "the asserted type was established by a comma-ok assertion", "`"+p.RenderShort(ta.X)+".("+shortType(ta.AssertedType)+")` is not the comma-ok form and nothing establishes the type before it: for any other type the run ends in a Go panic (interface conversion) instead of an error")
+		})
+	}
+	c.Analysed["comma_ok_type_assertions"] = nOK
+	if nOK < 30 {
+		c.undecided(rule, "instance-floor", "", fmt.Sprintf("%d comma-ok type assertions found in the module, more than 30 confirmed", nOK))
+	} else {
+		c.ok(rule, "type-assertions-comma-ok", "", fmt.Sprintf("%d comma-ok type assertions", nOK))
+	}
 }
